@@ -49,6 +49,18 @@ def handleCase (mode : String) (id : Nat) (hdr body : List Sexp) : String :=
       if out == "ok" && evs == expected then s!"R {id} CORR=ok SPEC=ok SPECM=ok | "
       else s!"R {id} CORR=diff SPEC=fail:overlapping-contexts-{out} SPECM=ok | expected {Sexp.list expected}, got {Sexp.list evs}"
     | _, _ => s!"R {id} CORR=diff SPEC=ok SPECM=ok | unparsable overlap case"
+  | "longloop" =>
+    match hdr, body with
+    | [n], [.list [.atom "result", .atom out, r1, r2]] =>
+      if out == "ok" && r1.nat? == n.nat? && r2.nat? == n.nat? then s!"R {id} CORR=ok SPEC=ok SPECM=ok | "
+      else s!"R {id} CORR=diff SPEC=fail:long-loop-does-not-terminate-normally-{out} SPECM=ok | resumed {r1} and {r2} times for {n} yields"
+    | _, _ => s!"R {id} CORR=diff SPEC=ok SPECM=ok | unparsable longloop case"
+  | "exotic" =>
+    match body with
+    | [.list [.atom "result", .atom out, .list evs]] =>
+      if out == "ok" && evs == [.atom "values-ok", .atom "same-error", .atom "values-ok"] then s!"R {id} CORR=ok SPEC=ok SPECM=ok | "
+      else s!"R {id} CORR=diff SPEC=fail:error-or-values-not-delivered-at-the-yield-{out} SPECM=ok | got {Sexp.list evs}"
+    | _ => s!"R {id} CORR=diff SPEC=ok SPECM=ok | unparsable exotic case"
   | "resetbetween" =>
     match body with
     | [.list [.atom "result", .atom out, clean]] =>
@@ -90,6 +102,16 @@ def handleCase (mode : String) (id : Nat) (hdr body : List Sexp) : String :=
   | "core20" => Drv.Core.handle20 id hdr body
   | "coreinv" => Drv.Core.handleInv id hdr body
   | "coredump" => Drv.Core.handleDump id hdr body
+  | "optpair" =>
+    -- C20 with public scheduler hooks in play (handlers that force the batch being flushed): the machine has no such
+    -- handlers, so only the statement itself is judged: the run under options equals the run without, event for event
+    let sep := Sexp.list [.atom "sep"]
+    let a := body.takeWhile (· != sep)
+    let b := (body.dropWhile (· != sep)).drop 1
+    if a == b then s!"R {id} CORR=ok SPEC=ok SPECM=ok | "
+    else
+      let i := ((a.zip b).takeWhile fun (x, y) => x == y).length
+      s!"R {id} CORR=diff SPEC=fail:options-change-behaviour-with-flush-hooks SPECM=ok | first difference at event {i}: {a[i]?.map toString} vs {b[i]?.map toString}"
   | "chain" =>
     -- a chain of n tasks, far deeper than the interpreter's recursion limit: value n, one flush iff the leaf awaits an item
     match hdr, body with
